@@ -16,7 +16,7 @@ import Mfi.Driver.VenueD
 import Mfi.Driver.WorldD
 open Mfi.Driver
 
-def handlers : List (String → List Int → Option String) := [fxOp, panicOp, irOp, igOp, bankOp, tokOp, gateOp, authOp, adminOp, acctOp, txOp, riskOp, liqOp, xferOp, ixOp, liqIxOp, bkrIxOp, closeBankOp, venueOp, venueIxOp, venueV4Op, worldXferOp, worldRecvOp, worldOp, worldLiqOp]
+def handlers : List (String → List Int → Option String) := [fxOp, panicOp, irOp, igOp, bankOp, tokOp, gateOp, authOp, adminOp, acctOp, txOp, riskOp, liqOp, xferOp, ixOp, liqIxOp, bkrIxOp, closeBankOp, venueOp, venueIxOp, venueV4Op, worldXferOp, worldRecvOp, worldDelevOp, worldOp, worldLiqOp]
 
 def stepLine (line : String) : String :=
   match line.trimAscii.toString.splitOn " " with
